@@ -242,4 +242,4 @@ def streams(ctx):
             mk("scen", scen,
                "all %d sequences of <= %d blocks of {error, transient error, connect, Pause, Resume, turn, +250, +510, accept} that pause or back "
                "off, on T / U / UT listeners, then a fresh client per listener and the settling epilogue" % (len(scen), depth)),
-            bld_stream(ctx, ("C05",), ["c", "cq", "ciq", "ci", "i", "cq"], 72, 1500)]
+            bld_stream(ctx, ("C05",), ["c", "cq", "ciq", "ci", "i", "cq", "cz", "cs"], 80, 1500)]
